@@ -17,6 +17,7 @@ import Driver.CodecFront
 import Driver.BoolCoder
 import Driver.VP8SyntaxBytes
 import Driver.VP8HeaderBytes
+import Driver.VP8ModeBytes
 import Driver.VP8LWindow
 import Driver.VP8Dec
 import Driver.C01Full
@@ -44,6 +45,7 @@ def dispatch (line : String) : String :=
            <|> Driver.BoolCoder.handle op args
            <|> Driver.VP8SyntaxBytes.handle op args
            <|> Driver.VP8HeaderBytes.handle op args
+           <|> Driver.VP8ModeBytes.handle op args
            <|> Driver.VP8LWindow.handle op args
            <|> Driver.VP8Dec.handle op args
            <|> Driver.C01Full.handle op args) with
